@@ -107,6 +107,10 @@ var failSeeds = []string{
 	`<p>{{.F | html | urlquery}}</p>`,                            // predefined escaper not last
 	`<script src="{{.F}}"></script>x<script>{{template "H0" .}}`, // ends in script
 	`<!-- {{.F}}`,                                                // ends in comment
+	"<script>var s = `a${{{.F}}}`;</script>",                     // action inside a JS template literal
+	"<script>var s = `unclosed;</script><p>{{.F}}</p>",           // unbalanced JS template literal
+	`<ul>{{range .L}}<li {{end}}</ul>`,                           // range body ends inside a tag
+	`{{with .W}}<a href="{{else}}<a title="{{end}}x">y</a>`,      // with/else branches differ
 }
 
 // recursive helpers with no computable output context.
